@@ -252,6 +252,24 @@ func (c *Ctx) Finish(verif string, start time.Time, seed int, explanation string
 	if c.SelfTest != nil {
 		cov["selftest"] = c.SelfTest
 	}
+	// per-rule summary: template text, obligations, discharged
+	perRuleSummary := map[string]any{}
+	for _, id := range ruleIDs {
+		n, dch, kn := 0, 0, 0
+		for _, o := range c.Obligations {
+			if o.Rule == id {
+				n++
+				if o.Verdict == Discharged {
+					dch++
+				}
+				if o.Known {
+					kn++
+				}
+			}
+		}
+		perRuleSummary[id] = map[string]any{"template": c.RuleDocs[id], "obligations": n, "discharged": dch, "known_findings": kn}
+	}
+	cov["rules"] = perRuleSummary
 	ev := map[string]any{
 		"property_id": c.Property,
 		"tier":        c.Tier,
